@@ -57,12 +57,13 @@ cPathEV   == <<"/","p","/","{","}">>
 cUrlPlain == <<"h","t","t","p",":","/","/","h">>
 cUrlVar   == <<"h","t","t","p",":","/","/","h","/","{","v","}">>
 cUrlOpen  == <<"h","t","t","p",":","/","/","h","/","{","v">>
+cUrlVar2  == <<"h","t","t","p",":","/","/","h","/","{","v","}","/","{","v","}">>     \* one variable used twice
 cPatOk    == <<"a","+">>
 cPatBad   == <<"(","a">>
 cExpr     == <<"{","$","r","e","q","u","e","s","t",".","b","o","d","y","#","/","u","}">>
 CharVocab == {cExt, cBogus, cDescr, cPathP, cPathQ, cPathNoSl, cPathId, cPathK, cPathIdK, cPathQId,
               cNameS, cNameT, cNameR, cNameR1, cNameDot, cNameSp, cNameDol, cEmpty, cNameSl, cNameUni, cName1, cNameDots,
-              cNameDash, cNameUnd, cNameMix, cNameDig, cExtUp, cExtBare, cPathVar, cPathEV, cUrlPlain, cUrlVar, cUrlOpen, cPatOk, cPatBad, cExpr}
+              cNameDash, cNameUnd, cNameMix, cNameDig, cExtUp, cExtBare, cPathVar, cPathEV, cUrlPlain, cUrlVar, cUrlVar2, cUrlOpen, cPatOk, cPatBad, cExpr}
 
 (* constant table (evaluated once by TLC): the strings of the vocabulary with their characters *)
 VocabTab == {[s |-> Join(cs), cs |-> cs] : cs \in CharVocab}
